@@ -7,7 +7,7 @@ namespace LLFree
 open Prog
 
 section
-variable {c : Cfg} {H : Nat → Prop} {P : Nat → Nat} {R : Nat → Prop} {m : Mem}
+variable {c : Cfg} {H : Nat → Nat} {P : Nat → Nat} {R : Nat → Prop} {m : Mem}
 
 /-- a change of the lower metadata only, with the unaccounted frames adjusted by the change of
     the free counts -/
@@ -27,16 +27,10 @@ theorem UpperInv.of_lower_change (inv : UpperInv c H P R m) (m' : Mem) (P' : Nat
     slotInj := by rw [hs]; exact inv.slotInj
     slotNotR := by rw [hs]; exact inv.slotNotR
     resSlot := by rw [ht, hs]; exact inv.resSlot
-    counterLe := by
+    counter := by
       intro j t hj
       rw [ht] at hj
-      have := inv.counterLe j t hj
-      have := hfree j
-      rw [hsf]; omega
-    counterEq := by
-      intro j t hj hn
-      rw [ht] at hj
-      have := inv.counterEq j t hj hn
+      have := inv.counter j t hj
       have := hfree j
       rw [hsf]; omega }
 
